@@ -1,7 +1,7 @@
 #!/bin/bash
 # usage: tools/trymut.sh <patch.diff> <ID> [<ID>...]   - apply a seeded change to /repo, run the checks, undo it
 set -u
-patch="$1"; shift
+patch="$(realpath "$1")"; shift
 cd /repo || exit 3
 if ! git diff --quiet; then echo "/repo has uncommitted changes - refusing"; exit 3; fi
 if ! git apply --check "$patch" 2>/dev/null; then echo "patch does not apply: $patch"; exit 3; fi
